@@ -329,11 +329,20 @@ func (h *hist) addBlock(parent int) int {
 				return true
 			}
 			spentHere := map[types.Hash256]bool{}
+			var weight uint64
 			put := func(n int) {
 				p := h.s.Tx(n)
 				if !ok(p) {
 					return
 				}
+				w := l.CS.TransactionWeight(p.T1)
+				if p.V2 {
+					w = l.CS.V2TransactionWeight(p.T2)
+				}
+				if weight+w > l.CS.MaxBlockWeight()*9/10 {
+					return
+				}
+				weight += w
 				for _, in := range p.Ins {
 					if spentHere[in] {
 						return
@@ -561,7 +570,11 @@ func (h *hist) genRebaseSet(l *mat.Ledger) (set []int) {
 			set = append(set, p.Name)
 		}
 	}
-	switch h.rng.Intn(7) {
+	shape := h.rng.Intn(7)
+	if h.long && h.rng.Intn(3) > 0 {
+		shape = h.rng.Intn(2) // confirmed inputs only: the distance decides
+	}
+	switch shape {
 	case 0:
 		add(fresh())
 	case 1:
@@ -693,6 +706,19 @@ func (h *hist) run(steps int) {
 	h.applied[1] = true
 	for i := 0; i < steps && !h.x.dead; i++ {
 		r := h.rng.Intn(100)
+		if h.fat { // fill the pool: mostly submissions of 1 MB transactions
+			switch {
+			case r < 80:
+				h.addStep()
+			case r < 90:
+				h.grow()
+				h.x.Obs()
+			default:
+				h.x.ensureFresh()
+				h.x.LookupSweep()
+			}
+			continue
+		}
 		switch h.mode {
 		case "c14":
 			switch {
